@@ -1,25 +1,26 @@
 import Ysshra.Model.Cond
 /-
 C20 — waiting on a message code wakes on the next request with that code, only then.
-(`Bridge.Wire` proves that the table size and inRange regenerated from shimserver.go are the
-`n = 40`, `<` used here, and that ServeAgent broadcasts before dispatch.)
+(`Bridge.Wire` proves that the table size and guard regenerated from shimserver.go are the
+`n = 40`, `<` used here, that ServeAgent broadcasts `req[0]` before dispatch and that the wait
+code is 35.)
 -/
 namespace Ysshra
 namespace C20
 open Cond
 
-/-- every code that passes the inRange indexes inside a table of `n ≤ 256` entries -/
+/-- every code that passes the guard indexes inside a table of `n ≤ 256` entries -/
 theorem c20_in_range (n : Nat) (hn : n ≤ 256) (c : UInt8) (h : inRange n c = true) : c.toNat < n := by
   unfold inRange at h
   have := Nat.mod_le n 256
   simp at h; omega
 
-/-- A request with code `c` releases exactly the clients waiting on `c`, all of them together,
-    and leaves every other code's waiters registered. -/
+/-- A broadcast of `c` releases exactly the clients waiting on `c`, all of them together, and
+    leaves every other code's waiters registered. -/
 theorem c20_release (n : Nat) (s : State) (c : UInt8) (h : inRange n c = true) :
-    (∀ t, t ∈ (step n s (.request c)).2 ↔ (t, c) ∈ s) ∧
-    (∀ w, w ∈ (step n s (.request c)).1 ↔ (w ∈ s ∧ w.2 ≠ c)) := by
-  simp only [step, h, ↓reduceIte]
+    (∀ t, t ∈ (broadcast n s c).2 ↔ (t, c) ∈ s) ∧
+    (∀ w, w ∈ (broadcast n s c).1 ↔ (w ∈ s ∧ w.2 ≠ c)) := by
+  simp only [broadcast, h, ↓reduceIte]
   constructor
   · intro t
     simp only [List.mem_map, List.mem_filter, decide_eq_true_eq]
@@ -28,45 +29,79 @@ theorem c20_release (n : Nat) (s : State) (c : UInt8) (h : inRange n c = true) :
     · intro hm; exact ⟨(t, c), ⟨hm, rfl⟩, rfl⟩
   · intro w; simp [List.mem_filter]
 
-/-- A request with another code leaves a waiter on `c` registered (and, by `c20_release`,
-    releases only the clients registered on that other code). -/
-theorem c20_other_code_keeps (n : Nat) (s : State) (c d : UInt8) (t : Tid) (hd : d ≠ c)
-    (hm : (t, c) ∈ s) : (t, c) ∈ (step n s (.request d)).1 := by
-  by_cases hg : inRange n d = true
-  · exact ((c20_release n s d hg).2 (t, c)).2 ⟨hm, fun h => hd h.symm⟩
-  · simp [step, hg, hm]
+/-- A request (of any kind) whose first byte is not `c` leaves a waiter on `c` registered. -/
+theorem c20_other_code_keeps (n : Nat) (s : State) (c : UInt8) (t : Tid) (e : Event)
+    (hd : e.code ≠ c) (hm : (t, c) ∈ s) : (t, c) ∈ (step n s e).1 := by
+  have hb : (t, c) ∈ (broadcast n s e.code).1 := by
+    by_cases hg : inRange n e.code = true
+    · exact ((c20_release n s e.code hg).2 (t, c)).2 ⟨hm, fun h => hd h.symm⟩
+    · simp [broadcast, hg, hm]
+  cases e with
+  | request d => simpa [step] using hb
+  | wait t' c' =>
+    simp only [step]
+    split <;> simp [hb]
 
-/-- A code outside the supported range returns immediately and changes nothing; a request with
-    such a code wakes nobody. -/
+/-- … and does not release it: the clients an event releases are those registered on the event's
+    own first byte (plus, for a wait on an unsupported code, the caller itself). -/
+theorem c20_released_only_matching (n : Nat) (s : State) (e : Event) (t : Tid)
+    (h : t ∈ (step n s e).2) :
+    (t, e.code) ∈ s ∨ (∃ c, e = .wait t c ∧ inRange n c = false) := by
+  have hb : ∀ t, t ∈ (broadcast n s e.code).2 → (t, e.code) ∈ s := by
+    intro t ht
+    by_cases hg : inRange n e.code = true
+    · exact ((c20_release n s e.code hg).1 t).1 ht
+    · simp [broadcast, hg] at ht
+  cases e with
+  | request d => exact .inl (hb t (by simpa [step] using h))
+  | wait t' c' =>
+    simp only [step] at h
+    split at h
+    · exact .inl (hb t h)
+    · rename_i hg
+      simp only [List.mem_append, List.mem_singleton] at h
+      rcases h with h | h
+      · exact .inl (hb t h)
+      · exact .inr ⟨c', by rw [h], by simpa using hg⟩
+
+/-- A code outside the supported range returns immediately and changes nothing beyond the
+    broadcast every request performs; a request with such a code wakes nobody. -/
 theorem c20_out_of_range (n : Nat) (s : State) (t : Tid) (c : UInt8) (h : inRange n c = false) :
-    step n s (.wait t c) = (s, [t]) ∧ step n s (.request c) = (s, []) := by
-  simp [step, h]
+    (step n s (.wait t c)).1 = (broadcast n s waitCode).1 ∧ t ∈ (step n s (.wait t c)).2 ∧
+    step n s (.request c) = (s, []) := by
+  refine ⟨?_, ?_, ?_⟩
+  · simp [step, h, Event.code]
+  · simp [step, h]
+  · simp [step, broadcast, h, Event.code]
 
-/-- A supported wait registers the client and releases nobody. -/
+/-- A supported wait registers the client. -/
 theorem c20_wait_registers (n : Nat) (s : State) (t : Tid) (c : UInt8) (h : inRange n c = true) :
-    step n s (.wait t c) = (s ++ [(t, c)], []) := by
+    (t, c) ∈ (step n s (.wait t c)).1 := by
   simp [step, h]
 
-/-- History form: a client registered on `c` stays blocked through any sequence of events that
-    contains no request with code `c`, and the next request with code `c` releases it. -/
-theorem c20_next_request (n : Nat) (s : State) (t : Tid) (c : UInt8) (es : List Event)
-    (hg : inRange n c = true) (hm : (t, c) ∈ s) (hno : ∀ e ∈ es, e ≠ .request c) :
-    (t, c) ∈ (run n s es).1 ∧ t ∈ (step n (run n s es).1 (.request c)).2 := by
+/-- History form: a client registered on `c` stays blocked through any sequence of requests none
+    of which has first byte `c`, and the next request with first byte `c` releases it. -/
+theorem c20_next_request (n : Nat) (s : State) (t : Tid) (c : UInt8) (es : List Event) (e : Event)
+    (hg : inRange n c = true) (hm : (t, c) ∈ s) (hno : ∀ e' ∈ es, e'.code ≠ c) (he : e.code = c) :
+    (t, c) ∈ (run n s es).1 ∧ t ∈ (step n (run n s es).1 e).2 := by
   induction es generalizing s with
-  | nil => exact ⟨hm, ((c20_release n s c hg).1 t).2 hm⟩
-  | cons e es ih =>
-    have hm' : (t, c) ∈ (step n s e).1 := by
-      cases e with
-      | wait t' c' =>
-        simp only [step]; split <;> simp [hm]
-      | request d =>
-        have hd : d ≠ c := fun h => hno (.request d) (List.mem_cons_self ..) (by rw [h])
-        exact c20_other_code_keeps n s c d t hd hm
-    have := ih (step n s e).1 hm' (fun e' he' => hno e' (List.mem_cons_of_mem _ he'))
+  | nil =>
+    refine ⟨hm, ?_⟩
+    show t ∈ (step n s e).2
+    have hb : t ∈ (broadcast n s e.code).2 := by rw [he]; exact ((c20_release n s c hg).1 t).2 hm
+    cases e with
+    | request d => simpa [step] using hb
+    | wait t' c' => simp only [step]; split <;> simp [hb]
+  | cons e0 es ih =>
+    have hm' : (t, c) ∈ (step n s e0).1 :=
+      c20_other_code_keeps n s c t e0 (hno e0 (List.mem_cons_self ..)) hm
+    have := ih (step n s e0).1 hm' (fun e' he' => hno e' (List.mem_cons_of_mem _ he'))
     simpa [run] using this
 
 /-- Non-vacuity: two waiters on 11, one on 13; a request 11 frees the first two only. -/
 example : step 40 [(1, 11), (2, 13), (3, 11)] (.request 11) = ([(2, 13)], [1, 3]) := by decide
+/-- a wait request is itself a request with code 35 -/
+example : step 40 [(1, 35)] (.wait 2 13) = ([(2, 13)], [1]) := by decide
 
 end C20
 end Ysshra
